@@ -59,12 +59,14 @@ impl Property for C16 {
             start.push(MWord::from_asca(&pw)); start_txt.push(api::render_word(&pw).ok().and_then(|r| r.ok()).unwrap_or_default());
             match api::apply_groups(&groups, &pw) { Ok(Ok(v)) => per_word.push(v.iter().map(MWord::from_asca).collect()), _ => return Outcome::skip("structural application does not return Ok") }
         }
+        if per_word.iter().any(|v| v.len() != groups.len()) { return Outcome::fail("the number of group states differs from the number of rule groups", detail(format!("{} groups, states per word {:?}", groups.len(), per_word.iter().map(|v| v.len()).collect::<Vec<_>>()))) }
         let state = |i: usize| -> Vec<MWord> { per_word.iter().map(|v| v[i].clone()).collect() };
         let mut expected: Vec<usize> = vec![]; let mut prev = start.clone();
         for i in 0..groups.len() { let s = state(i); if s != prev { expected.push(i); } prev = s; }
         let reported: Vec<usize> = trace.iter().map(|c| c.0).collect();
         if !reported.windows(2).all(|p| p[0] < p[1]) { return Outcome::fail("reported rule indices are not strictly increasing", detail(format!("{reported:?}"))) }
         if reported != expected { return Outcome::fail(if reported.len() > expected.len() { "a group that changed nothing is reported" } else { "a group that changed the phrase is not reported (or the wrong one is)" }, detail(format!("reported {reported:?}, changed {expected:?}"))) }
+        if trace.iter().any(|c| c.0 >= groups.len()) { return Outcome::fail("a reported rule index does not exist", detail(format!("{reported:?}"))) }
         for (i, after, _) in &trace { if *after != state(*i) { return Outcome::fail("a reported state differs from the run of the groups up to it", detail(format!("group {i}: reported {:?}, independent {:?}", after.iter().map(|w| w.show()).collect::<Vec<_>>(), state(*i).iter().map(|w| w.show()).collect::<Vec<_>>()))) } }
         let last_txt: Vec<String> = trace.last().map(|c| c.2.clone()).unwrap_or(start_txt.clone());
         if run.len() != 1 || run[0] != last_txt.join(" ") { return Outcome::fail("the last reported state is not what run returns", detail(format!("run {:?}, last trace state {:?}", run, last_txt.join(" ")))) }
